@@ -2,6 +2,7 @@
 from common import *
 
 MTS = [1, 1, 1, 3, 3, 255, 2, 7]
+ALLOW_MT0 = False   # message type byte 0 ("undefined"): legal for the encoder (C07-C10 range over all batches), excluded by C01's domain
 
 def valid_typed_payload(rng, kind, n):
     """a well-formed payload of the given typed kind with total length as close to n as the kind allows"""
@@ -35,7 +36,7 @@ def valid_typed_payload(rng, kind, n):
     return rng.bytes(n)
 
 def gen_packet(rng, ver, n, mt=None, allow_seg_bits=True):
-    mt = rng.choice(MTS) if mt is None else mt
+    mt = rng.choice(MTS + ([0, 0] if ALLOW_MT0 else [])) if mt is None else mt
     kind = None
     if mt == 1 and rng.chance(1, 2):
         kind = rng.choice([1, 2, 3, 7, 8])
@@ -78,10 +79,10 @@ def boundary_len(rng, maxb, huge_ok):
 
 def gen_batch(rng, maxb, npk, huge_ok=True, mix=True, ver=None):
     ver = rng.range(1, 255) if ver is None else ver
-    base_mt = rng.choice(MTS)
+    base_mt = rng.choice(MTS + ([0, 0] if ALLOW_MT0 else []))
     out = []
     for i in range(npk):
-        mt = rng.choice(MTS) if (mix and rng.chance(1, 3)) else base_mt
+        mt = rng.choice(MTS + ([0] if ALLOW_MT0 else [])) if (mix and rng.chance(1, 3)) else base_mt
         out.append(gen_packet(rng, ver, boundary_len(rng, maxb, huge_ok), mt))
     return out
 
